@@ -227,7 +227,7 @@ def unit_validate_characters():
         return [{"contract": validate_characters_contract(True), "callees": {"ref:Range.validate": m_allowed_validate, "ref:Range.__str__": lambda ex, st, recv, a, k: iter([(st, fresh(STR, "rangestr")[0])])}, "spec_functions": sf, "label": "allowed characters declared",
                  "assumptions": ["allowed-characters range: Range.validate contract (verified) seen as the predicate allowed(code point); ord() of a 1-character string is its code point (z3 str.to_code, A-CHR)"]},
                 {"contract": validate_characters_contract(False), "spec_functions": sf, "label": "no allowed characters declared"}]
-    return ProofUnit("fields.validate_characters", "validate_characters: loop invariant 'all characters before the index are allowed'", ["C03"], make, None)
+    return ProofUnit("fields.validate_characters", "validate_characters: loop invariant 'all characters before the index are allowed'", ["C03"], make, ValidatedOracle(), xcheck=False)
 
 
 def setup_validate_length(fixed):
@@ -261,7 +261,7 @@ def unit_validate_length():
             c = validate_length_contract(fixed)
             out.append({"contract": c, "callees": {"ref:Range.validate": m_length_validate}, "spec_functions": {"length_ok": c._length_ok}, "label": "fixed" if fixed else "not fixed"})
         return out
-    return ProofUnit("fields.validate_length", "validate_length: fixed = at most the width; otherwise the length range decides", ["C03"], make, None)
+    return ProofUnit("fields.validate_length", "validate_length: fixed = at most the width; otherwise the length range decides", ["C03"], make, ValidatedOracle(), xcheck=False)
 
 
 def unit_validate_empty():
@@ -274,4 +274,4 @@ def unit_validate_empty():
                     returns=[Clause("allowed_empty or value != ''", "returns-only-if-non-empty-or-allowed", props=["C03"])],
                     raises={"FieldValueError": [Clause("not allowed_empty and value == ''", "raises-only-for-a-forbidden-empty-value", props=["C03"])]},
                     expect=["return", "FieldValueError"], n_loops=0, modifies=[])}
-    return ProofUnit("fields.validate_empty", "validate_empty", ["C03"], make, None)
+    return ProofUnit("fields.validate_empty", "validate_empty", ["C03"], make, ValidatedOracle(), xcheck=False)
